@@ -295,6 +295,12 @@ class FuncInfo(object):
 #       (so that the condition is a test atom of the flow graph)
 #   C10 `x = next((E for v in it if c), D)`              ->  `for v in it: if c: x = E; break`
 #       with `else: x = D`
+#   C11 `for a, b in <literal table>: BODY` (table: a literal tuple/list of
+#       at most 16 entries, given in place, as a local bound once, or as a
+#       class-level constant read through self./cls.; BODY without
+#       break/continue) -> BODY once per entry with a, b substituted; and
+#       `getattr(x, '<constant>')` -> `x.<constant>`  (table-driven dispatch
+#       and the if-chain it replaces read the same)
 #   C6  `t = E` immediately followed by a statement in which t (bound once, read
 #       once in the function) is the first thing evaluated apart from plain
 #       name / attribute / constant loads                 ->  E substituted for t
@@ -676,7 +682,119 @@ def _canon_function(fn):
         i += 1
 
 
+class _NameSubst(ast.NodeTransformer):
+
+  def __init__(self, mapping):
+    self.mapping = mapping
+
+  def visit_Name(self, n):
+    if isinstance(n.ctx, ast.Load) and n.id in self.mapping:
+      from sa import inline  # pylint: disable=g-import-not-at-top
+      return ast.copy_location(inline._fast_copy(self.mapping[n.id]), n)  # pylint: disable=protected-access
+    return n
+
+
+def _fold_getattr(tree):
+  for parent in ast.walk(tree):
+    for field, val in ast.iter_fields(parent):
+      items = val if isinstance(val, list) else [val]
+      for i, x in enumerate(items):
+        if isinstance(x, ast.Call) and isinstance(x.func, ast.Name) and \
+            x.func.id == 'getattr' and len(x.args) == 2 and not x.keywords \
+            and isinstance(x.args[1], ast.Constant) and isinstance(
+                x.args[1].value, str) and x.args[1].value.isidentifier():
+          new = ast.copy_location(ast.Attribute(
+              value=x.args[0], attr=x.args[1].value, ctx=ast.Load()), x)
+          if isinstance(val, list):
+            val[i] = new
+          else:
+            setattr(parent, field, new)
+
+
+def _unroll_table_loops(fn, class_consts):
+  from sa import inline  # pylint: disable=g-import-not-at-top
+  loads, stores = _name_uses(fn)
+  local_tables = {}
+  for n in ast.walk(fn):
+    if isinstance(n, ast.Assign) and len(n.targets) == 1 and isinstance(
+        n.targets[0], ast.Name) and isinstance(n.value, (ast.Tuple, ast.List)) \
+        and stores.get(n.targets[0].id, 0) == 1:
+      local_tables[n.targets[0].id] = n.value
+
+  def table_of(e):
+    if isinstance(e, (ast.Tuple, ast.List)):
+      return e
+    if isinstance(e, ast.Name) and e.id in local_tables:
+      return local_tables[e.id]
+    if isinstance(e, ast.Attribute) and isinstance(e.value, ast.Name) and \
+        e.value.id in ('self', 'cls') and e.attr in class_consts:
+      return class_consts[e.attr]
+    return None
+  changed = True
+  rounds = 0
+  while changed and rounds < 4:
+    changed = False
+    rounds += 1
+    for parent in ast.walk(fn):
+      for blk in _canon_blocks(parent):
+        for i, st in enumerate(blk):
+          if not isinstance(st, ast.For) or st.orelse:
+            continue
+          tab = table_of(st.iter)
+          if tab is None or not 0 < len(tab.elts) <= 16:
+            continue
+          tg = st.target
+          names = [tg.id] if isinstance(tg, ast.Name) else (
+              [e.id for e in tg.elts] if isinstance(tg, ast.Tuple) and all(
+                  isinstance(e, ast.Name) for e in tg.elts) else None)
+          if names is None:
+            continue
+          if isinstance(tg, ast.Tuple) and not all(
+              isinstance(e, (ast.Tuple, ast.List)) and len(e.elts) == len(names)
+              for e in tab.elts):
+            continue
+          inner = [x for s in st.body for x in ast.walk(s)]
+          if any(isinstance(x, (ast.Break, ast.Continue)) for x in inner):
+            continue
+          if any(isinstance(x, ast.Name) and x.id in names and isinstance(
+              x.ctx, (ast.Store, ast.Del)) for x in inner):
+            continue
+          if any(loads.get(nm, 0) and False for nm in names):
+            continue
+          out = []
+          for e in tab.elts:
+            vals = list(e.elts) if isinstance(tg, ast.Tuple) else [e]
+            sub = _NameSubst(dict(zip(names, vals)))
+            for s in st.body:
+              out.append(sub.visit(inline._fast_copy(s)))  # pylint: disable=protected-access
+          blk[i:i + 1] = out
+          changed = True
+          break
+        if changed:
+          break
+      if changed:
+        break
+  if rounds > 1:
+    ast.fix_missing_locations(fn)
+
+
 def canonicalise(tree):
+  _fold_getattr(tree)
+  for c in ast.walk(tree):
+    if isinstance(c, ast.ClassDef):
+      consts = {}
+      for st in c.body:
+        if isinstance(st, ast.Assign) and len(st.targets) == 1 and isinstance(
+            st.targets[0], ast.Name) and isinstance(st.value, (ast.Tuple,
+                                                                ast.List)):
+          consts[st.targets[0].id] = st.value
+      for m in c.body:
+        if isinstance(m, (ast.FunctionDef, ast.AsyncFunctionDef)):
+          _unroll_table_loops(m, consts)
+  for n in tree.body:
+    if isinstance(n, (ast.FunctionDef, ast.AsyncFunctionDef)):
+      _unroll_table_loops(n, {})
+  _fold_getattr(tree)
   for n in ast.walk(tree):
     if isinstance(n, (ast.FunctionDef, ast.AsyncFunctionDef)):
       _canon_function(n)
